@@ -1,4 +1,5 @@
 pub mod c01;
+pub mod c02;
 pub mod c03;
 pub mod c16;
 pub mod c14;
